@@ -371,7 +371,9 @@ fn op_strategy(n: usize) -> impl Strategy<Value = UOp> {
 }
 
 fn hist_strategy(maxlen: usize) -> impl Strategy<Value = Hist> {
-    (0u8..4, 0u8..3, prop_oneof![Just(4usize), Just(6), Just(12), Just(40)]).prop_flat_map(move |(kind, observe, n)| {
+    (0u8..4, 0u8..3, prop_oneof![Just(4usize), Just(6), Just(12), Just(40), Just(100), Just(300)]).prop_flat_map(move |(kind, observe, n)| {
+        // Partition<u8> cannot name more than 256 elements
+        let n = if kind == 0 { n.min(200) } else { n };
         prop::collection::vec(op_strategy(n), 0..maxlen).prop_map(move |ops| Hist { kind, observe, universe: n, ops })
     })
 }
